@@ -278,7 +278,7 @@ pub fn substitution(out: &mut Out, v: &Vocab, e: &str, b: &Beh, r: &Rendered, sa
     // subexpressions whose value is special: the result must carry everything the enclosing operation sees (sign of zero,
     // infinities, NaN, Integer/Float variant, Decimal scale, extreme integers)
     let special: &[&str] = match e {
-        "f64" => &["-0", "0*-1", "-5%5", "1/0", "-1/0", "0/0", "0.1+0.2", "1/3", "2^0.5", "round(-0.4)", "10^308*10", "5-5",
+        "f64" => &["-0", "0*-1", "-5%5", "1/0", "-1/0", "0/0", "0.1+0.2", "1/3", "2^0.5", "round(-0.4)", "10^308*10", "5-5", "1+1/10^20", "1+0.0000000001", "1-1/10^17",
                    "max(0/0,0)", "min(1,0/0)", "med(0/0,1,2)", "avg(1/0,1)"],
         "num" => &["0.0*-1", "-0.", "7/2", "2^63", "3.0", "6/2", "1/0", "0/0", "2^62+2^62", "9007199254740993", "0.5+0.5", "-9223372036854775807-1",
                    // Integer operations that leave the i64 range: the value of the subexpression is the rounded double, nothing more
@@ -287,7 +287,9 @@ pub fn substitution(out: &mut Out, v: &Vocab, e: &str, b: &Beh, r: &Rendered, sa
                    "-(-9223372036854775807-1)", "-(0-9223372036854775807-1)", "abs(-9223372036854775807-1)", "-9223372036854775808", "9223372036854775808",
                    "max(0/0,0)", "min(1,0/0)", "med(0/0,1,2)", "avg(1/0,1)"],
         "dec" => &["1.10", "1.50*2", "0.1+0.2", "1/3", "2.0", "-0.0", "79228162514264337593543950335", "0.0000000000000000000000000001"],
-        "cpx" => &["-0", "0*-1", "i*i", "2i", "1/0", "-i", "0-0i", "1/3+i/7"],
+        "cpx" => &["-0", "0*-1", "i*i", "2i", "1/0", "-i", "0-0i", "1/3+i/7",
+                   // sums next to 1 whose rounding loses the small term (a function that looks through its argument keeps it)
+                   "1+1/10^20", "1+0.0000000001", "1+i/10^9", "1-1/10^17", "1+1/3", "2^0.5*2^0.5"],
         _ => &["-9223372036854775807-1", "7/2", "9223372036854775807", "-7%3", "0*-1", "-9223372036854775808", "9223372036854775808", "- 9223372036854775808"],
     };
     // the context in every spelling of its first function token (the enclosing operation matters: an aggregate of the same kind,
